@@ -33,6 +33,10 @@ pub struct Doc {
     pub rate_s: Option<u64>,
     /// this appender is rendered with an unknown kind (lossy loading drops it)
     pub broken_appender: Option<usize>,
+    /// KiB of comment lines between the refresh rate and the appenders: the
+    /// document grows beyond any small read buffer
+    #[serde(default)]
+    pub filler_kb: u16,
 }
 
 #[derive(Clone, Debug, Serialize, Deserialize, PartialEq)]
@@ -90,6 +94,9 @@ pub fn render(doc: &Doc, version: usize) -> String {
     let mut s = String::new();
     if let Some(r) = doc.rate_s {
         s.push_str(&format!("refresh_rate: {} seconds\n", r));
+    }
+    for i in 0..(doc.filler_kb as usize * 1024 / 80) {
+        s.push_str(&format!("# {:05} padding padding padding padding padding padding padding padding pad\n", i));
     }
     s.push_str("# ──── appenders ──── 設定 ────\n");
     s.push_str("appenders:\n");
@@ -233,6 +240,7 @@ fn gen_doc(rng: &mut Rng, allow_none_rate: bool) -> Doc {
         cfg,
         rate_s: if allow_none_rate && rng.chance(1, 8) { None } else { Some(*rng.pick(&[1u64, 2, 3, 5, 30, 3600])) },
         broken_appender: if rng.chance(1, 8) { Some(rng.below(napp as u64) as usize) } else { None },
+        filler_kb: 0,
     }
 }
 
@@ -267,6 +275,30 @@ pub fn generate(rng: &mut Rng, tier: Tier) -> Scn {
     let mk = |rng: &mut Rng, n: usize| -> Vec<LogAt> { (0..n).map(|_| LogAt { sleep_s: *rng.pick(&[1u64, 1, 2, 3, 5, 30]), target: rng.pick(&TARGETS).to_string(), level: rng.range(1, 5) as u8 }).collect() };
     let calm = (0..rng.range(1, 2)).map(|_| { let n = rng.range(2, 8) as usize; mk(rng, n) }).collect();
     let racing = (0..rng.range(0, 2)).map(|_| { let n = rng.range(2, 8) as usize; mk(rng, n) }).collect();
+    match rng.weighted(&[40, 1, 1]) {
+        1 => {
+            // documents larger than 64 KiB
+            for d in docs.iter_mut() {
+                d.filler_kb = rng.range(63, 80) as u16;
+            }
+        }
+        2 => {
+            // an outage of well over a hundred polls, then the file comes back
+            for d in docs.iter_mut() {
+                d.rate_s = Some(*rng.pick(&[1u64, 1, 2, 3]));
+            }
+            steps = vec![
+                Step::Sleep { s: 1 },
+                if rng.chance(1, 2) { Step::Delete } else { Step::DirInPlace },
+                Step::Sleep { s: *rng.pick(&[130u64, 320, 400]) },
+                Step::Write { doc: rng.below(ndocs as u64) as usize },
+                Step::Sleep { s: 7 },
+                Step::Write { doc: rng.below(ndocs as u64) as usize },
+                Step::Sleep { s: 4 },
+            ];
+        }
+        _ => {}
+    }
     let via_symlink = rng.chance(1, 4);
     if via_symlink {
         for st in steps.iter_mut() {
